@@ -130,6 +130,9 @@ class ApiSession:
         wf = self.spec.get("write_fault_after")
         if wf is not None:
             self.port.write_fault_after = wf
+        wl = self.spec.get("write_fault_late")
+        if wl:
+            self.port.write_fault_late = (wl["n"], wl.get("exc", "SerialException"))
         return self.port
 
     def dump_api(self, api_obj):
